@@ -63,9 +63,17 @@ theorem wfProcessWorkflowEvent_raises (req) : Raises (wfProcessWorkflowEvent req
   constructor
   intro c e s' h
   unfold wfProcessWorkflowEvent at h
+  dsimp only at h
   split at h
   · cases h; intro hc; cases hc
-  · cases h
+  · split at h
+    · split at h
+      · cases h
+      · have hk : ∀ xs : List Staged, Raises (M.forEach xs
+            fun x => logError "UnreachableJoinError" (some x.id) (some x.route)) notExpr :=
+          fun xs => Raises.forEach _ (fun x => Raises.modify _)
+        exact (hk _).run _ e s' h
+    · cases h
 
 theorem tkProcessWorkflowEvent_raises (i req) : Raises (tkProcessWorkflowEvent i req) notExpr := by
   constructor
